@@ -373,6 +373,15 @@ func concurrent(rd *vh.Rand, seed uint64, res *vh.Result, n int) {
 		var mu sync.Mutex
 		var answers []answer
 		stop := make(chan struct{})
+		// the pool already holds several facts, each signed by 1-4 different keys, when the first proposals are made
+		for f := 0; f < 7; f++ {
+			for k, nk := 0, rd.Range(1, 4); k < nk; k++ {
+				tok := []byte(fmt.Sprintf("verif-c38-fact-%d", f))
+				if op, err := isaac.NewDummyOperation(isaac.NewDummyOperationFact(tok, util.BytesToByter(tok)), poolh.Key(seed, k), netID); err == nil {
+					_, _ = e.pool.SetOperation(context.Background(), op)
+				}
+			}
+		}
 		var adder sync.WaitGroup
 		adder.Add(1)
 		go func() { // operations keep arriving, facts repeat (re-signed by other keys)
@@ -455,12 +464,112 @@ func concurrent(rd *vh.Rand, seed uint64, res *vh.Result, n int) {
 	}
 }
 
+// ---------------------------------------------------------------- the real operation pool as the maker's source
+
+// pooled: one maker; between Make calls for fresh positions (next rounds / heights) operations arrive in the real
+// operation pool: several facts, each submitted 1-4 times (re-signed by different keys, so different operations).
+// Every proposal returned is checked: distinct operation hashes, distinct facts, only submitted operations, each
+// listed under its own fact.
+func pooled(rd *vh.Rand, seed uint64, res *vh.Result, fixed [][]int, label string) {
+	e := newEnv(seed)
+	defer e.pool.Close()
+	e.last.Store(&lastInfo{20, 0})
+	limit := uint64(rd.Range(2, 40))
+	getops := func(ctx context.Context, h base.Height) ([][2]util.Hash, error) {
+		return e.pool.OperationHashes(ctx, h, limit, nil)
+	}
+	e.getops.Store(&getops)
+	factOf := map[string]string{} // operation hash -> fact hash, of everything submitted
+	nfacts := 0
+	var hist []jstep
+	submit := func(f, signer int) {
+		tok := []byte(fmt.Sprintf("verif-c38-pooled-fact-%d", f))
+		op, err := isaac.NewDummyOperation(isaac.NewDummyOperationFact(tok, util.BytesToByter(tok)), poolh.Key(seed, signer), netID)
+		if err != nil {
+			panic(err)
+		}
+		factOf[op.Hash().String()] = op.Fact().Hash().String()
+		time.Sleep(time.Microsecond) // the pool orders by a nanosecond time stamp
+		_, _ = e.pool.SetOperation(context.Background(), op)
+		hist = append(hist, jstep{"op": "submit", "fact": f, "signer": signer})
+	}
+	rounds := len(fixed)
+	if fixed == nil {
+		rounds = rd.Range(2, 6)
+	}
+	maxSigs := 0
+	for r := 0; r < rounds; r++ {
+		if fixed != nil {
+			for f, n := range fixed[r] {
+				for k := 0; k < n; k++ {
+					submit(f, k)
+				}
+				if n > maxSigs {
+					maxSigs = n
+				}
+			}
+		} else {
+			for i, n := 0, rd.Range(1, 4); i < n; i++ {
+				f := nfacts
+				if nfacts > 0 && rd.Chance(1, 3) {
+					f = rd.Intn(nfacts) // more signatures for a fact already in the pool
+				} else {
+					nfacts++
+				}
+				sigs := rd.Range(1, 4)
+				for k := 0; k < sigs; k++ {
+					submit(f, rd.Intn(6))
+				}
+				if sigs > maxSigs {
+					maxSigs = sigs
+				}
+			}
+		}
+		p := pos{h: 21, round: uint64(r), prev: 0}
+		pr, err := e.maker.Make(context.Background(), base.RawPoint(p.h, p.round), hashOf("block", p.prev))
+		hist = append(hist, jstep{"op": "make", "h": p.h, "round": p.round, "prev": p.prev, "limit": limit})
+		res.Count("", false)
+		rp := map[string]any{"kind": "pooled", "label": label, "history": append([]jstep{}, hist...)}
+		if err != nil || pr == nil {
+			res.Fail("maker-error", fmt.Sprintf("pooled source: Make at %+v: %v", p, err), rp)
+			continue
+		}
+		if d := distinctOps(pr); d != "" {
+			res.Fail("proposal-duplicate-operations", fmt.Sprintf("Make at %+v over the real operation pool (limit %d): %s", p, limit, d), rp)
+		}
+		for _, o := range pr.ProposalFact().Operations() {
+			if o[0] == nil || o[1] == nil {
+				continue
+			}
+			if f, ok := factOf[o[0].String()]; !ok || f != o[1].String() {
+				res.Fail("proposal-lists-unknown-operation", fmt.Sprintf("Make at %+v lists operation %s under fact %s: never submitted like that", p, o[0], o[1]), rp)
+			}
+		}
+		if err := pr.IsValid(netID); err != nil {
+			res.Fail("proposal-invalid", fmt.Sprintf("Make at %+v over the real operation pool: %v", p, err), rp)
+		}
+		if again, err := e.maker.Make(context.Background(), base.RawPoint(p.h, p.round), hashOf("block", p.prev)); err != nil || again == nil || !again.Fact().Hash().Equal(pr.Fact().Hash()) {
+			res.Fail("different-proposal-for-position", fmt.Sprintf("pooled source: second Make at %+v returned another proposal (err=%v)", p, err), rp)
+		}
+		res.Dist(fmt.Sprintf("pooled_proposal_operations_%02d", min(len(pr.ProposalFact().Operations()), 20)))
+	}
+	res.Dist(fmt.Sprintf("pooled_max_signatures_per_fact_%d", maxSigs))
+	res.Count("pooled-"+label+fmt.Sprint(hist), maxSigs >= 3)
+}
+
 func main() {
 	o := vh.ParseFlags()
 	res := vh.NewResult("one evaluation = one Make/PreferEmpty answer checked against the statement (same signed proposal per (point, previous block); operations with distinct hashes and distinct facts; proposal is for the asked position and valid); distinct_nontrivial = histories that ask a position again, concurrent runs")
 	cases := &vh.Cases{Import: "From MV Require Import C38.Model.", Type: "list item", CheckFn: "check", Shard: 200}
 	corpus(o.Seed, res, cases)
 	rd := vh.NewRand(o.Seed)
+	// corpus: one fact signed three and four times (the third operation of a fact is where a stale fact index shows)
+	pooled(rd, o.Seed, res, [][]int{{3, 1}}, "corpus: fact signed 3 times")
+	pooled(rd, o.Seed, res, [][]int{{2, 1}, {1, 0}, {1, 2}}, "corpus: third signature arrives later")
+	pooled(rd, o.Seed, res, [][]int{{4, 4, 1}, {0, 2, 3}}, "corpus: facts signed 4 times")
+	for i, n := 0, o.Pick(150, 3000); i < n; i++ {
+		pooled(rd, o.Seed+uint64(i), res, nil, "generated")
+	}
 	concurrent(rd, o.Seed, res, o.Pick(25, 400))
 	n := o.Pick(400, 8000)
 	for i := 0; i < n; i++ {
